@@ -2,7 +2,8 @@
    Model: ReplProto.v (round-based protocol as the code behaves); proofs: ReplProtoProofs.v.
    The statement at full strength (converges_statement: every history, every running replica
    with the link up, every fair schedule) is FALSE of the faithful model; what is proved is the
-   guarded theorem C14_converges_partial and one witness per class of non-convergent histories
+   guarded theorem C14_converges_partial (guards: no log rotation on the primary; the last write is
+   not the one numbered like the session start) and one witness per class of non-convergent histories
    (each replayed against the real code: corpus/C14/kf-*.case). *)
 From KV Require Import Bytes Spec WalCodec ReplProto ReplProtoProofs.
 Open Scope N_scope.
@@ -11,7 +12,6 @@ Theorem C14_converges_partial : forall evs cs F,
   Forall noflush evs ->
   let p := fst (run evs sys_init) in
   let r := snd (run evs sys_init) in
-  cuts_ok (p_log p) = true ->
   r_mode r <> RDown -> r_link r = true -> ~ last_write_unsent p r ->
   (bads cs <= F)%nat ->
   (2 * N.to_nat (p_next p - r_exp r) + 3 + F <= length cs)%nat ->
@@ -23,7 +23,7 @@ Print Assumptions C14_converges_partial.
 Theorem C14_rotation_refuted :
   let p := fst (run w_rotation sys_init) in
   let r := snd (run w_rotation sys_init) in
-  connected r /\ cuts_ok (p_log p) = true /\ ~ last_write_unsent p r /\
+  connected r /\ ~ last_write_unsent p r /\
   forall cs, views_agree p (ticks cs p r) = false.
 Proof. exact rotation_refuted. Qed.
 Print Assumptions C14_rotation_refuted.
@@ -38,19 +38,22 @@ Print Assumptions C14_join_after_rotation_refuted.
 Theorem C14_last_write_refuted :
   let p := fst (run w_last_write sys_init) in
   let r := snd (run w_last_write sys_init) in
-  connected r /\ Forall noflush w_last_write /\ cuts_ok (p_log p) = true /\
+  connected r /\ Forall noflush w_last_write /\
   last_write_unsent p r /\ forall cs, views_agree p (ticks cs p r) = false.
 Proof. exact last_write_refuted. Qed.
 Print Assumptions C14_last_write_refuted.
 
-Theorem C14_tx_cut_refuted :
+(* D18e (a transaction cut by the 100-entry response limit) was repaired by f62340e; the former
+   witness now converges (regression example tx_cut_now_converges in ReplProtoProofs.v,
+   corpus/C14/fixed-tx-*.case) *)
+Theorem C14_tx_cut_fixed :
   let p := fst (run w_tx_cut sys_init) in
   let r := snd (run w_tx_cut sys_init) in
-  connected r /\ Forall noflush w_tx_cut /\ cuts_ok (p_log p) = false /\ ~ last_write_unsent p r /\
-  view_get (r_store r) [200] = Some [1] /\ view_get (r_store r) [201] = None /\
-  forall cs, views_agree p (ticks cs p r) = false.
-Proof. exact tx_cut_refuted. Qed.
-Print Assumptions C14_tx_cut_refuted.
+  connected r /\ Forall noflush w_tx_cut /\ ~ last_write_unsent p r /\
+  view_get (r_store r) [200] = Some [1] /\ view_get (r_store r) [201] = Some [2] /\
+  views_agree p r = true.
+Proof. exact tx_cut_now_converges. Qed.
+Print Assumptions C14_tx_cut_fixed.
 
 Theorem C14_converges_statement_refuted : ~ converges_statement.
 Proof. exact converges_statement_refuted. Qed.
